@@ -343,7 +343,13 @@ def check_pack_rule(report, facts, rule, fn_name='resolve_instructions'):
     if 'Instruction' not in facts.classes or 'CompressedInstruction' not in facts.classes:
         raise AnalysisError('anchor vanished: class Instruction / CompressedInstruction')
     walker, paths = function_paths(facts, fn)
-    classes = concrete_instruction_classes(facts)
+    classes = []
+    for c in concrete_instruction_classes(facts):
+        if facts.args_attrs(c) is None:
+            # PseudoInstruction: no literal operand list, never an operand of an encoder (expanded before this pass: C05 / C09 R9.5)
+            report.note('{}: args() is not a literal operand list; not an encodable class, outside the pack rule'.format(c))
+            continue
+        classes.append(c)
     if not classes:
         raise AnalysisError('anchor vanished: no concrete Instruction class')
     a_classes = sorted(c for c in classes if (facts.args_attrs(c) or [])[-2:] == ['aq', 'rl'])
